@@ -9,7 +9,9 @@ namespace vf {
 // every stored frame carries the declared shape (precondition of saving a meaningful file)
 inline bool framesComplete(const ezc3d::c3d &o, std::string *why = nullptr) {
     Shape s = shapeOf(o);
-    size_t wantSub = s.nC ? s.nSub : 0;
+    // with channels, the reference is what frame 0 holds, not what the header says: if the two disagree that is the library's inconsistency
+    // (C05) and the object is saved all the same, so that the checks on the saved file see it
+    size_t wantSub = s.nC ? (o.data().nbFrames() ? o.data().frame(0).analogs().nbSubframes() : s.nSub) : 0;
     for (size_t f = 0; f < o.data().nbFrames(); ++f) {
         const auto &fr = o.data().frame(f);
         if (fr.points().nbPoints() != s.nP) { if (why) *why = "frame " + std::to_string(f) + " has " + std::to_string(fr.points().nbPoints()) + " points, declared " + std::to_string(s.nP); return false; }
